@@ -503,7 +503,27 @@ func init() {
 							bad.Slots[k].Body = []model.Stmt{}
 						}
 					}
-					cc.tree.files[page] = append(cc.tree.files[page], model.Text{S: " then "}, bad, model.Text{S: "."})
+					// the faulty use stands at the top level of the page or inside one of its blocks (taken or not), in a slot body
+					// of a valid use, or in an insert block
+					var placed []model.Stmt
+					switch (i / 40) % 6 {
+					case 0:
+						placed = []model.Stmt{model.Text{S: " then "}, bad, model.Text{S: "."}}
+					case 1:
+						placed = []model.Stmt{model.If{Conds: []model.Expr{model.Lit{V: model.Bool(false)}}, Bodies: [][]model.Stmt{{model.Text{S: "never "}, bad}}}}
+					case 2:
+						placed = []model.Stmt{model.Each{Var: "cell", Arr: model.Var{Name: "da"}, Body: []model.Stmt{model.If{Conds: []model.Expr{model.Var{Name: "db"}}, Bodies: [][]model.Stmt{{model.Text{S: "x"}}}, Else: []model.Stmt{bad}}}}}
+					case 3:
+						cc.tree.files["components/wrap"] = []model.Stmt{model.Text{S: "<wrap>"}, model.SlotRef{Name: ""}, model.Text{S: "|"}, model.SlotRef{Name: "tail"}, model.Text{S: "</wrap>"}}
+						placed = []model.Stmt{model.Component{Name: "~wrap", Slots: []model.SlotBody{{Name: "", Body: []model.Stmt{model.Text{S: "fine"}}}, {Name: "tail", Body: []model.Stmt{model.Text{S: "in slot "}, bad}}}}}
+					case 4:
+						placed = []model.Stmt{model.For{Init: &model.Assign{Name: "fk", E: model.Lit{V: model.Int(0)}}, Cond: model.Binary{Op: "<", L: model.Var{Name: "fk"}, R: model.Lit{V: model.Int(0)}}, Post: model.Print{E: model.Postfix{Op: "++", X: model.Var{Name: "fk"}}},
+							Body: []model.Stmt{model.Text{S: "never"}}, Else: []model.Stmt{bad}}}
+					default:
+						cc.tree.files["layouts/faultshell"] = []model.Stmt{model.Text{S: "<shell>"}, model.Reserve{Name: "body"}, model.Text{S: "</shell>"}}
+						cc.tree.files["faultpage"] = []model.Stmt{model.Use{Name: "~faultshell"}, model.Insert{Name: "body", Block: []model.Stmt{model.Text{S: "in insert "}, model.If{Conds: []model.Expr{model.Var{Name: "db"}}, Bodies: [][]model.Stmt{{bad}}}}}}
+					}
+					cc.tree.files[page] = append(cc.tree.files[page], placed...)
 					files := cc.tree.sources(model.Style{Layout: model.SpaceLayout})
 					tpl, err := loadTreeAs(c, treeDir(cc.tree), cc.tree.dir, files, cc.tree.ext)
 					c.Nontrivial(fmt.Sprint(fault, files))
